@@ -16,7 +16,7 @@ import tempfile
 from . import pyenv, ncchcommon as nc, savecommon as sv
 from .builders import exefs as XB, romfs as RB, pack as P
 
-READERS = ['romfs', 'exefs', 'ncch', 'ncch_special', 'cia', 'cci', 'cdn', 'sdtitle', 'disa', 'diff', 'nand']
+READERS = ['romfs', 'exefs', 'ncch', 'ncch_special', 'ncch_plain', 'cia', 'cci', 'cdn', 'sdtitle', 'disa', 'diff', 'nand']
 WRAPPERS = ['w_ctr', 'w_twl', 'w_cbc', 'w_ctr_win', 'w_sub', 'w_merge', 'w_closewrap']
 SOURCES = ['obj', 'path', 'fs']
 CLOSEFD = [None, True, False]
@@ -45,6 +45,8 @@ def images():
     for special in (False, True):
         image, info, kwargs = nc.build(_ncch_spec(special))
         _cache['ncch_special' if special else 'ncch'] = image
+    # an unencrypted NCCH: the files of its nested readers are windows stacked directly on the section windows
+    _cache['ncch_plain'] = nc.build(dict(_ncch_spec(False), mode='nocrypto'))[0]
     from pyctr.crypto import engine as E
     pyenv.install_fake_boot9(B9SEED)
     ckx = int.from_bytes(E._b9_keyblob['retail'][0x1C0:0x1D0], 'big')
@@ -148,7 +150,7 @@ def build(kind, source, closefd):
             r = sc.reader = ExeFSReader(f, **k, **kw)
             sc.handles['icon'] = r.open('icon')
             sc.handles['code'] = r.open('.code')
-        elif kind in ('ncch', 'ncch_special'):
+        elif kind in ('ncch', 'ncch_special', 'ncch_plain'):
             from pyctr.type.ncch import NCCHReader
             f, k = _source(sc, source, 'c.ncch', im[kind])
             r = sc.reader = NCCHReader(f, **k, **kw)
